@@ -223,3 +223,41 @@ ENTRIES += [
     V("C10-v-numiter-commute", "C10", (ONP, "        return total_timesteps // (self.num_envs * self.num_steps)", "        per = self.num_steps * self.num_envs\n        return total_timesteps // per")),
     V("C10-v-polyak", "C10", (SAC, "lambda o, t: tau * o + (1 - tau) * t,", "lambda o, t: t + tau * (o - t),")),
 ]
+
+WTA = "lerax/wrapper/transform_action.py"
+WTO = "lerax/wrapper/transform_observation.py"
+WTR = "lerax/wrapper/transform_reward.py"
+WM = "lerax/wrapper/misc.py"
+WU = "lerax/wrapper/utils.py"
+CG = "lerax/compatibility/gym.py"
+CGX = "lerax/compatibility/gymnax.py"
+
+ENTRIES += [
+    # ---------------------------------------------------------------- C13
+    M("C13-action-reward-nofunc", "C13", "C13.1", (WTA, "        return self.env.reward(\n            state.env_state, self.func(action), next_state.env_state, key=key\n        )", "        return self.env.reward(\n            state.env_state, action, next_state.env_state, key=key\n        )")),
+    M("C13-action-info-nofunc", "C13", "C13.1", (WTA, "        return self.env.transition_info(\n            state.env_state, self.func(action), next_state.env_state\n        )", "        return self.env.transition_info(\n            state.env_state, action, next_state.env_state\n        )")),
+    M("C13-timelimit-reward-swapped", "C13", "C13.1", (WM, "        return self.env.reward(state.env_state, action, next_state.env_state, key=key)\n\n    def terminal(\n        self, state: TimeLimitState", "        return self.env.reward(next_state.env_state, action, state.env_state, key=key)\n\n    def terminal(\n        self, state: TimeLimitState")),
+    M("C13-obs-wrapper-reward", "C13", "C13.1", (WTO, "        return self.env.reward(state.env_state, action, next_state.env_state, key=key)", "        return self.func(self.env.reward(state.env_state, action, next_state.env_state, key=key))")),
+    M("C13-reward-wrapper-nofunc", "C13", "C13.1", (WTR, "        return self.func(\n            self.env.reward(state.env_state, action, next_state.env_state, key=key)\n        )", "        return self.env.reward(state.env_state, action, next_state.env_state, key=key)")),
+    M("C13-remove-space", "C13", ["C13.3", "C13.2"], (WTR, "    @property\n    def observation_space(self) -> AbstractSpace[ObsType, Any]:\n        return self.env.observation_space\n\n    def initial(self, *, key: Key[Array, \"\"]) -> PureTransformRewardState", "    def initial(self, *, key: Key[Array, \"\"]) -> PureTransformRewardState")),
+    M("C13-space-wrong", "C13", "C13.2", (WTR, "    @property\n    def observation_space(self) -> AbstractSpace[ObsType, Any]:\n        return self.env.observation_space", "    @property\n    def observation_space(self) -> AbstractSpace[ObsType, Any]:\n        return self.env.action_space")),
+    M("C13-timelimit-gt", "C13", "C13.4", (WM, "return env_truncate | (state.step_count >= self.max_episode_steps)", "return env_truncate | (state.step_count > self.max_episode_steps)")),
+    M("C13-timelimit-plus2", "C13", "C13.4", (WM, "step_count=state.step_count + 1, env_state=env_next_state", "step_count=state.step_count + 2, env_state=env_next_state")),
+    M("C13-timelimit-init1", "C13", "C13.4", (WM, "return TimeLimitState(step_count=0, env_state=env_state)", "return TimeLimitState(step_count=1, env_state=env_state)")),
+    M("C13-timelimit-drops-inner", "C13", "C13.4", (WM, "return env_truncate | (state.step_count >= self.max_episode_steps)", "return state.step_count >= self.max_episode_steps")),
+    M("C13-rescale-action-forward", "C13", "C13.5", (WTA, "action_space, _, rescale = rescale_box(env.action_space, min, max)", "action_space, rescale, _ = rescale_box(env.action_space, min, max)")),
+    M("C13-rescale-obs-backward", "C13", "C13.5", (WTO, "new_box, forward, _ = rescale_box(env.observation_space, min, max)", "new_box, _, forward = rescale_box(env.observation_space, min, max)")),
+    M("C13-intercept-plus", "C13", "C13.5", (WU, "min[min_finite] - box.low[min_finite] * gradient[min_finite]", "min[min_finite] + box.low[min_finite] * gradient[min_finite]")),
+    M("C13-gradient-inverted", "C13", "C13.5", (WU, "(max[both_finite] - min[both_finite])\n        / (box.high[both_finite] - box.low[both_finite])", "(box.high[both_finite] - box.low[both_finite])\n        / (max[both_finite] - min[both_finite])")),
+    M("C13-backward-wrong", "C13", "C13.5", (WU, "return (sample - intercept) / gradient", "return sample / gradient - intercept")),
+    M("C13-clipaction-own-space", "C13", "C13.5", (WTA, "return jnp.clip(action, env.action_space.low, env.action_space.high)", "return jnp.clip(action, -1.0, 1.0)")),
+    M("C13-gym-swap-term-trunc", "C13", "C13.7", (CG, "            terminal=terminated,\n            truncated=truncated,\n        )", "            terminal=truncated,\n            truncated=terminated,\n        )")),
+    M("C13-gym-step-order", "C13", "C13.7", (CG, "            bool(jnp.asarray(term)),\n            bool(jnp.asarray(trunc)),", "            bool(jnp.asarray(trunc)),\n            bool(jnp.asarray(term)),")),
+    M("C13-gymnax-done-and", "C13", "C13.7", (CGX, "        done = termination | truncation", "        done = termination & truncation")),
+    M("C13-gymnax-order", "C13", "C13.7", (CGX, "        observation, env_state, reward, done, _ = self.env.step_env(", "        env_state, observation, reward, done, _ = self.env.step_env(")),
+    M("C13-unwrapped-shallow", "C13", "C13.6", ("lerax/wrapper/base_wrapper.py", "        return self.env.unwrapped", "        return self.env")),
+    M("C13-identity-obs-next", "C13", "C13.1", (WM, "    def observation(\n        self, state: IdentityState[StateType], *, key: Key[Array, \"\"]\n    ) -> ObsType:\n        return self.env.observation(state.env_state, key=key)", "    def observation(\n        self, state: IdentityState[StateType], *, key: Key[Array, \"\"]\n    ) -> ObsType:\n        return self.env.observation(state, key=key)")),
+    M("C13-mask-func-dropped", "C13", "C13.1", (WTA, "            return self.mask_func(env_mask)", "            return env_mask")),
+    V("C13-v-timelimit-or-order", "C13", (WM, "return env_truncate | (state.step_count >= self.max_episode_steps)", "return (self.max_episode_steps <= state.step_count) | env_truncate")),
+    V("C13-v-forward-commute", "C13", (WU, "return gradient * sample + intercept", "return intercept + sample * gradient")),
+]
